@@ -595,3 +595,28 @@ fn c06_rtu_recv_refused() {
 fn c06_rtu_recv_read_reply_whole() {
     rtu_delivery::<7>(false, 3, Some((2, 2)), 7);
 }
+
+//@ props: C06 C07~
+//@ peer: yes
+//@ timeout: 300
+//@ fns: serial::frame::RtuParser::length_mode, common::function::FunctionCode::get
+//@ bounds: none - all 256 function codes x both directions
+/// the length table: requests 1-6 have 4 body bytes, requests 15/16 a byte count at offset 5; replies 1-4 a byte count at
+/// offset 1, replies 5/6/15/16 4 body bytes, exception replies (replies ONLY) 1 body byte; everything else is unknown
+#[kani::proof]
+#[kani::unwind(4)]
+fn c06_rtu_length_table() {
+    let fc: u8 = kani::any();
+    let request: bool = kani::any();
+    let p = if request { RtuParser::new_request_parser() } else { RtuParser::new_response_parser() };
+    let got = match p.length_mode(fc) {
+        LengthMode::Fixed(n) => Some(Ok(n)),
+        LengthMode::Offset(o) => Some(Err(o)),
+        LengthMode::Unknown => None,
+    };
+    assert!(got == ref_len_mode(request, fc), "[C06] frame length is derived from function code and direction as the protocol defines");
+    kani::cover!(request && fc == 16, "variable-length request");
+    kani::cover!(!request && fc == 0x83, "exception reply");
+    kani::cover!(request && fc == 0x83, "exception bit in a request");
+    kani::cover!(got.is_none() && fc < 0x80, "unknown function code");
+}
